@@ -127,7 +127,13 @@ impl SocketSend for RepSocket {
                     if let Some(envelope) = self.envelope.take() {
                         message.prepend(&envelope);
                     }
-                    peer.send_queue.send(Message::Message(message)).await?;
+                    let result = peer.send_queue.send(Message::Message(message)).await;
+                    drop(peer);
+                    if result.is_err() {
+                        // The connection is gone: forget the peer and release what is held for it.
+                        self.backend.peer_disconnected(&peer_id);
+                    }
+                    result?;
                     Ok(())
                 } else {
                     Err(ZmqError::ReturnToSender {
